@@ -3,7 +3,7 @@
 (* Validation of real mapping runs against MapRun.tla.                     *)
 (* One NDJSON line per run:                                                *)
 (*  {"run": {tree, drop, flat, G, means:[[leaf,[..]]..], qg, Q, cells,     *)
-(*           table:[[[lev,node],[genes]]..], B, fnum, fden, K, chunk, P,   *)
+(*           table:[[[lev,node],[genes]]..], B, fnum, fden, flk:[[lev,fnum,fden]..], K, chunk, P,   *)
 (*           minm, votes},                                                 *)
 (*   "events": [ {"op":"chunk", r0, r1, names},                            *)
 (*               {"op":"node", parent, rows, genes, leaves, types, draws,  *)
@@ -42,7 +42,10 @@ RunOf(j) ==
      table |-> [p \in {<<j.table[i][1][1], j.table[i][1][2]>> : i \in 1..Len(j.table)} |->
                   Rng(j.table[CHOOSE i \in 1..Len(j.table) :
                                   <<j.table[i][1][1], j.table[i][1][2]>> = p][2])],
-     B |-> j.B, fnum |-> j.fnum, fden |-> j.fden, K |-> j.K, chunk |-> j.chunk, P |-> j.P,
+     B |-> j.B, fnum |-> j.fnum, fden |-> j.fden,
+     flk |-> [lv \in {j.flk[i][1] : i \in 1..Len(j.flk)} |->
+                LET r == j.flk[CHOOSE i \in 1..Len(j.flk) : j.flk[i][1] = lv] IN <<r[2], r[3]>>],
+     K |-> j.K, chunk |-> j.chunk, P |-> j.P,
      minm |-> j.minm, votes |-> j.votes]
 
 Ev == Traces[tid].events
